@@ -122,6 +122,25 @@ GOLDEN = [
     (10, -32768, '02028000', '02028000'), (10, -32769, '0203ff7fff', '0203ff7fff'), (10, 0, '020100', '020100'),
     (10, -1, '0201ff', '0201ff'), (10, 2 ** 63, '0209008000000000000000', '0209008000000000000000'),
     (10, -2 ** 63 - 1, '0209ff7fffffffffffffff', '0209ff7fffffffffffffff'),
+    # one of each remaining scalar kind, identifiers and lengths at their form boundaries (a descriptor instead
+    # of a catalogue index; no CER bytes where CER differs by the open finding F2)
+    (_P('BOOLEAN'), True, '0101ff', '0101ff'), (_P('BOOLEAN'), False, '010100', '010100'), (_P('NULL'), '', '0500', '0500'),
+    (_P('OID'), [1, 2, 840, 113549], '06062a864886f70d', '06062a864886f70d'), (_P('OID'), [2, 999, 3], '0603883703', '0603883703'),
+    (_P('OID'), [0, 0], '060100', '060100'), (_P('OID'), [2, 0], '060150', '060150'), (_P('OID'), [1, 39, 128], '06034f8100', '06034f8100'),
+    (_P('BITSTRING'), '1011', '030204b0', '030204b0'), (_P('BITSTRING'), '', '030100', '030100'),
+    (_P('BITSTRING'), '10110000', '030200b0', '030200b0'), (_P('BITSTRING'), '0', '03020700', '03020700'),
+    (_P('OCTETSTRING'), '41' * 127, '047f' + '41' * 127, '047f' + '41' * 127),
+    (_P('OCTETSTRING'), '41' * 128, '048180' + '41' * 128, '048180' + '41' * 128),
+    (_P('OCTETSTRING'), '41' * 256, '04820100' + '41' * 256, '04820100' + '41' * 256),
+    (_P('UTF8'), '\u00e9', '0c02c3a9', '0c02c3a9'),
+    (_P('INTEGER', tags=[['E', 'C', 5]]), 5, 'a503020105', None), (_P('INTEGER', tags=[['I', 'C', 5]]), 5, '850105', '850105'),
+    (_P('INTEGER', tags=[['I', 'C', 30]]), 5, '9e0105', '9e0105'), (_P('INTEGER', tags=[['I', 'C', 31]]), 5, '9f1f0105', '9f1f0105'),
+    (_P('INTEGER', tags=[['I', 'C', 128]]), 5, '9f81000105', '9f81000105'),
+    (_P('INTEGER', tags=[['E', 'A', 16383]]), 5, '7fff7f03020105', None),
+    (_P('REAL'), [5, 2, 1], '0903800105', '0903800105'), (_P('REAL'), [-1, 2, -1], '0903c0ff01', '0903c0ff01'),
+    (_P('REAL'), [6, 2, 0], '0903800103', '0903800103'), (_P('REAL'), [0, 2, 0], '0900', '0900'),
+    (_P('REAL'), [255, 2, 0], '09038000ff', '09038000ff'), (_P('REAL'), [256, 2, 0], '0903800801', '0903800801'),
+    (_P('ENUMERATED', named=[['x', 0], ['y', 1]]), 1, '0a0101', '0a0101'),
 ]
 
 
@@ -135,9 +154,9 @@ def _gen_mid_reads(r):
 def _gen_catalogue(r):
     desc, values = r.choice(CATALOGUE)
     golden = None
-    if r.random() < 0.3:
+    if r.random() < 0.4:
         ci, gv, gd, gc = r.choice(GOLDEN)
-        desc, values = CATALOGUE[ci][0], [gv]
+        desc, values = (ci if isinstance(ci, dict) else CATALOGUE[ci][0]), [gv]
         golden = {'der': gd, 'cer': gc}
     reps = []
     routes = ['canonical', 'permuted', 'permuted', 'defaults-explicit', 'defaults-implicit', 'native-args',
